@@ -477,5 +477,7 @@ def write_evidence(mod, tier, seed, t0, result, names, n_examples, axioms, proof
         "wall_s": round(time.time() - t0, 2),
         "violations": n_viol,
     }
+    if os.environ.get("VERIF_NO_EVIDENCE"):      # measurement runs (tools/impl_coverage.py) leave the evidence alone
+        return
     with open(os.path.join(EVID, "%s.json" % mod.ID), "w") as f:
         json.dump(ev, f, indent=1, ensure_ascii=False, default=str)
